@@ -51,5 +51,7 @@ class Flow:
                     assert False, 'Failed to parse function signature {!r}'.format(params)
             elif isinstance(link, Iterable):
                 ds = iterable_loader(link)(ds, position=position)
+            else:
+                assert False, 'Unsupported step #{} in flow: {!r}'.format(position, link)
 
         return ds
